@@ -445,6 +445,12 @@ func TestWorker(t *testing.T) {
 				t.Fatal(err)
 			}
 			sum.Violations = append(sum.Violations, rp)
+			if os.Getenv("VERIF_FIRSTFAIL") != "" {
+				// regression runs over seeded breakages only ask "is it caught": one
+				// minimised violation per worker is enough
+				sum.Counters["exploration_cut_short_after_first_violation"] = 1
+				idx = runs
+			}
 		}
 	}
 	for k := range shapes {
